@@ -874,6 +874,15 @@ func entryByName(name string) *entryDef {
 	return nil
 }
 
+func firstDeep(f format) *entryDef {
+	for i := range entries {
+		if entries[i].format == f && entries[i].deep {
+			return &entries[i]
+		}
+	}
+	return nil
+}
+
 func entriesOf(f format) []*entryDef {
 	var out []*entryDef
 	for i := range entries {
@@ -1416,6 +1425,9 @@ func TestLadder(t *testing.T) {
 				if depth > ev.Pick(100, 1000) && !e.deep {
 					continue
 				}
+				if depth > 10000 && e != firstDeep(k.format) {
+					continue // one entry point per format above 10^4: the others share the parser and a step costs minutes
+				}
 				idx++
 				if idx%ev.NShards != ev.Shard {
 					continue
@@ -1557,7 +1569,7 @@ func TestKnown(t *testing.T) {
 // (c) native fuzz targets. The oracle is inside the target; a failing input is also recorded as a violation so that the
 // seed-corpus pass of an ordinary shard run yields a replay.
 
-var fuzzHostile = []string{"", "null", "{}", "[]", "0", `""`, "\x00", "\xff\xfe", "[[[[[[[[", "((((((((", "{\"a\":", "permit(", "@", "\"", "/*", "//", "!!!!!!!!1", "--------1",
+var fuzzHostile = []string{"", "null", "{}", "[]", "0", `""`, "\x00", "\xff\xfe", "[[[[[[[[", "((((((((", "{\"a\":", "permit(", "@", "\"", "/*", "/**", "/* *", "/*/", "entity A; /**", "//", "!!!!!!!!1", "--------1",
 	`{"staticPolicies":null}`, `{"staticPolicies":{}}`, `{"effect":"permit"}`, `{"__entity":{}}`, `{"__extn":{}}`, "namespace", "entity A in", "T::\""}
 
 func fuzzFormat(f *testing.F, name string, formats ...format) {
